@@ -14,7 +14,7 @@ import weakref
 from typing import Any, Optional
 
 from .spec import Ref, base_context
-from .tasklib import TYPE_INFO, Value
+from .tasklib import TYPE_INFO, Value, same_value
 
 
 def V(prop: str, code: str, detail: str, **sig) -> dict:
@@ -162,7 +162,7 @@ def check_C01(sc: dict, out, facts: Optional[Facts] = None) -> list[dict]:
     execute, load = expected_plan(sc, ref)
     exp = expected_values(sc, ref, load)
     for n, v in out.returned:
-        if n in exp and not (isinstance(v, Value) and v == exp[n]):
+        if n in exp and not same_value(v, exp[n]):
             vs.append(V('C01', 'value', f'node {n}: returned {v!r} != reference {exp[n]!r}', node_type=ref.tname(n)))
             break
     return vs
@@ -516,7 +516,7 @@ def check_C10(sc: dict, out, facts: Facts) -> list[dict]:
                         has_failed=bool(set(got) & failed)))
         exp = expected_values_with_failures(sc, ref, execute, load, failed)
         for n, v in out.returned:
-            if n in exp and v != exp[n]:
+            if n in exp and not same_value(v, exp[n]):
                 vs.append(V('C10', 'value', f'node {n} returned {v!r}, reference {exp[n]!r}'))
                 break
         must_run = set(execute) - failed
